@@ -86,6 +86,24 @@ def rule_S2(ctx, rid='S2'):
     f = ctx.program.func('Union.split')
     cfg = cfg_of(f)
     n = 0
+    # the locals that hold the children: whatever is added to self.bounds
+    child_names = set()
+    struct_nodes = []
+    for st in walk_no_nested(f.node):
+        if isinstance(st, ast.Assign) and dotted(st.targets[0]) == 'self.bounds':
+            child_names |= {x.id for x in ast.walk(st.value) if isinstance(x, ast.Name)
+                            and x.id not in ('self', 'np')}
+            if cfg.has(st):
+                struct_nodes.append(cfg.node_of(st).id)
+        if isinstance(st, ast.Call) and isinstance(st.func, ast.Attribute) and \
+                dotted(st.func.value) == 'self.bounds' and cfg.has(st):
+            if st.func.attr in ('append', 'extend', 'insert'):
+                child_names |= {x.id for a_ in st.args for x in ast.walk(a_)
+                                if isinstance(x, ast.Name) and x.id not in ('self', 'np')}
+            if st.func.attr in ('append', 'extend', 'insert', 'pop'):
+                struct_nodes.append(cfg.node_of(st).id)
+    ctx.require(child_names and struct_nodes, 'Union.split: replacement of the split member '
+                'not found')
     for t in cfg.nodes:
         if t.kind != 'test':
             continue
@@ -93,11 +111,55 @@ def rule_S2(ctx, rid='S2'):
                      and len(x.ops) == 1]:
             sides = [cmp_.left, cmp_.comparators[0]]
             dep = [_depends(cfg, t.id, s_, lambda e: isinstance(e, ast.Name) and
-                            e.id == 'new_bounds') or 'new_bounds' in unparse(s_) for s_ in sides]
+                            e.id in child_names) or
+                   any(isinstance(x, ast.Name) and x.id in child_names for x in ast.walk(s_))
+                   for s_ in sides]
             if not any(dep) or all(dep):
                 continue
+            if not any(isinstance(x, ast.Attribute) and x.attr in ('log_v', 'log_v_all')
+                       for s_ in sides for x in ast.walk(s_)):
+                continue
             other = sides[1] if dep[0] else sides[0]
+            kids = sides[0] if dep[0] else sides[1]
             n += 1
+            # (a) the children's volumes are summed
+            kc = kids
+            while isinstance(kc, ast.Name):
+                ds = cfg.defs_at(t.id, kc.id)
+                if len(ds) != 1 or not isinstance(cfg.nodes[next(iter(ds))].ast, ast.Assign):
+                    break
+                kc = cfg.nodes[next(iter(ds))].ast.value
+            summed = isinstance(kc, ast.Call) and (
+                (dotted(kc.func) or '').endswith('logsumexp') or
+                dotted(kc.func) in ('np.logaddexp', 'np.logaddexp.reduce'))
+            ctx.ob(rid, 'Union.split:children-volume-is-summed', summed, f.where(t.ast),
+                   'the children enter the comparison with their summed volume (logsumexp)'
+                   if summed else
+                   'the children enter the comparison as `%s`, not as the sum of their volumes: a '
+                   'split whose children together are larger than the parent can be accepted'
+                   % unparse(kids)[:50])
+            # (b) polarity: the replacement is reached only when children <= parent
+            op = cmp_.ops[0]
+            kids_left = dep[0]
+            greater = (isinstance(op, (ast.Gt, ast.GtE)) and kids_left) or \
+                      (isinstance(op, (ast.Lt, ast.LtE)) and not kids_left)
+            smaller = (isinstance(op, (ast.Lt, ast.LtE)) and kids_left) or \
+                      (isinstance(op, (ast.Gt, ast.GtE)) and not kids_left)
+            okp = False
+            first = min(struct_nodes)
+            for tid, lab in cfg.strict_guards(first):
+                if tid != t.id:
+                    continue
+                from ..cfg import edge_facts
+                for atom, _, truth in edge_facts(cfg.nodes[tid].expr, lab):
+                    if ast.dump(atom) == ast.dump(cmp_) or unparse(atom) == unparse(cmp_):
+                        okp = (greater and truth is False) or (smaller and truth is True)
+            ctx.ob(rid, 'Union.split:replacement-only-if-not-larger', okp, f.where(t.ast),
+                   'the split member is replaced only where the children\'s summed volume does '
+                   'not exceed the parent\'s' if okp else
+                   'the replacement of the split member is not confined to the branch on which '
+                   '`%s` says the children are not larger than the parent: a split can increase '
+                   'the summed volume' % unparse(cmp_)[:60])
             txt = unparse(other)
             # names used to select the record that is replaced (pop / np.delete / slice)
             idx_names = set()
@@ -146,6 +208,70 @@ def rule_S2(ctx, rid='S2'):
            'the may-split flag uses different size rules: %s' % factors)
 
 
+def rule_S3(ctx, rid='S3'):
+    ctx.rule(rid, 'minimum cluster size: the top-up of the smaller cluster in split() is '
+             'triggered when a cluster has fewer than n_points_min members and assigns at least '
+             'n_points_min of the most likely points to it (slice bound and threshold compared '
+             'as linear forms in n_points_min)')
+    from ..gaps import linear, _Unknown
+    from fractions import Fraction
+    f = ctx.program.func('Union.split')
+
+    def sym(e):
+        if isinstance(e, ast.Attribute) and e.attr == 'n_points_min':
+            return 'm'
+        return None
+    n = 0
+    # trigger: a comparison of cluster sizes (bincount / sum of labels) with n_points_min
+    for t in walk_no_nested(f.node):
+        if isinstance(t, ast.Compare) and len(t.ops) == 1 and any(
+                isinstance(x, ast.Call) and dotted(x.func) in ('np.bincount', 'np.sum',
+                                                               'np.count_nonzero', 'len')
+                for x in ast.walk(t.left)) and any(
+                isinstance(x, ast.Attribute) and x.attr == 'n_points_min'
+                for x in ast.walk(t.comparators[0])) and \
+                isinstance(t.ops[0], (ast.GtE, ast.Gt, ast.Lt, ast.LtE)) and \
+                'labels' in {x.id for x in ast.walk(t.left) if isinstance(x, ast.Name)} | {
+                    'labels' if 'bincount' in unparse(t.left) else ''}:
+            try:
+                fm = linear(t.comparators[0], sym, {})
+            except _Unknown:
+                ctx.note('S3 not decided: threshold `%s`' % unparse(t.comparators[0]))
+                continue
+            c = fm.get(1, 0)
+            strict = isinstance(t.ops[0], (ast.Gt, ast.Lt))
+            # "size >= m + c" (or "size > m + c"): enough iff it implies size >= m
+            ok = fm.get('m', 0) == 1 and (c >= 0 if not strict else c >= -1)
+            n += 1
+            ctx.ob(rid, 'Union.split:top-up-threshold', ok, f.where(t),
+                   'a cluster counts as large enough only with at least n_points_min members'
+                   if ok else
+                   'the size test `%s` accepts clusters with fewer than n_points_min members'
+                   % unparse(t)[:60])
+    # the top-up assigns at least n_points_min points: labels[<order>[:K]] = label
+    for st in walk_no_nested(f.node):
+        if isinstance(st, ast.Assign) and isinstance(st.targets[0], ast.Subscript) and \
+                isinstance(st.targets[0].slice, ast.Subscript) and \
+                isinstance(st.targets[0].slice.slice, ast.Slice) and \
+                st.targets[0].slice.slice.lower is None and \
+                st.targets[0].slice.slice.upper is not None and \
+                any(isinstance(x, ast.Attribute) and x.attr == 'n_points_min'
+                    for x in ast.walk(st.targets[0].slice.slice.upper)):
+            up = st.targets[0].slice.slice.upper
+            try:
+                fm = linear(up, sym, {})
+            except _Unknown:
+                ctx.note('S3 not decided: slice bound `%s`' % unparse(up))
+                continue
+            ok = fm.get('m', 0) >= 1 and fm.get(1, 0) >= 0
+            n += 1
+            ctx.ob(rid, 'Union.split:top-up-size', ok, f.where(st),
+                   'the smaller cluster receives the n_points_min most likely points' if ok else
+                   'the smaller cluster is topped up with `%s` points, fewer than n_points_min'
+                   % unparse(up))
+    return n
+
+
 def rule_INIT(ctx, rid='L0'):
     ctx.rule(rid, 'INIT-all: the constructor initialises every member of the group, each with '
              'one entry for the single initial ellipsoid')
@@ -181,6 +307,9 @@ def run(ctx):
             rule_L6(ctx, f, tr)
     rule_INIT(ctx)
     rule_S2(ctx)
+    rule_S3(ctx)
+    from ..effects import rule_F9
+    rule_F9(ctx)      # the recorded construction points are never modified through a call
     rule_T1(ctx, 'Union.split', {'bounds', 'points_bounds', 'log_v_all'}, false_return=True)
     rule_T1(ctx, 'Union.trim', {'bounds', 'points_bounds', 'log_v_all'}, false_return=True)
     ctx.extra['paths_compared'] = total
@@ -188,6 +317,7 @@ def run(ctx):
     ctx.floor('T1', 5, 'rejection exits')
     ctx.floor('L6', 4, 'record obligations')
     ctx.floor('T9', 2, 'structural change sites')
-    ctx.not_decided += ['minimum cluster size after top-up (numerical outcome of the mixture fit)',
-                        'monotone summed volume under a successful split',
+    ctx.floor('S3', 2, 'cluster-size obligations')
+    ctx.not_decided += ['that the LARGER cluster keeps n_points_min members after the top-up '
+                        '(depends on the mixture fit); the volumes themselves (numerics)',
                         '"no operation raises" in general']
